@@ -40,7 +40,10 @@ func replay(c *core.Ctx, raw json.RawMessage) error {
 	return nil
 }
 
-const walkBound = 4000
+// walkBound guards walks over a corrupted structure; it is above every size the generators produce
+// (lists up to 8194 elements, rings up to about 10000 nodes). If the reference side ever reaches it the
+// oracle is blind and says so (core.Unobservable).
+const walkBound = 1 << 15
 
 // ---- return values and observations -------------------------------------------------
 
@@ -96,6 +99,15 @@ type listObs struct {
 type lstate struct {
 	Lists []listObs
 	Nbrs  []int // per handle: idx(Next), idx(Prev)
+}
+
+func (s lstate) blind() bool {
+	for _, l := range s.Lists {
+		if !l.FwdOK || !l.BwdOK {
+			return true
+		}
+	}
+	return false
 }
 
 func (s lstate) hash() int {
@@ -451,7 +463,10 @@ func ival(v any) int {
 	return v.(int)
 }
 
-type ringA struct{ hs []*lists.Ring[int] }
+type ringA struct {
+	hs    []*lists.Ring[int]
+	blind bool // a walk hit walkBound
+}
 
 func (a *ringA) idx(r *lists.Ring[int]) int {
 	if r == nil {
@@ -486,7 +501,9 @@ func doSeqA(r *lists.Ring[int]) (seq []int, ok bool) {
 	defer func() {
 		if x := recover(); x != nil {
 			if _, is := x.(guard); !is {
-				panic(x)
+				// Do ran into a broken link (nil next): a corrupted ring, reported as such
+				seq, ok = []int{-96}, false
+				return
 			}
 			seq, ok = []int{-99}, false
 		}
@@ -546,9 +563,15 @@ func (a *ringA) do(op Op) (r ret) {
 	return r
 }
 
-func (a *ringA) observe() rstate {
+// observe: Len, Do, Next, Prev of every handle except the zero Rings no operation has touched yet
+// (fresh): observing one would initialise it, and the lazy initialisation inside Prev / Move / Link /
+// Len / Do is itself part of what is compared.
+func (a *ringA) observe(fresh map[int]bool) rstate {
 	var s rstate
-	for _, x := range a.hs {
+	for i, x := range a.hs {
+		if fresh[i] {
+			continue
+		}
 		var o ringObs
 		// Do first as a guard for Len (same loop shape); the model calls Len first, which
 		// is indistinguishable: both only initialise a zero Ring.
@@ -557,6 +580,7 @@ func (a *ringA) observe() rstate {
 			o.Len = x.Len()
 		} else {
 			o.Len = -98
+			a.blind = a.blind || (len(seq) == 1 && seq[0] == -99)
 		}
 		o.Seq = seq
 		o.N = a.idx(x.Next())
@@ -566,7 +590,10 @@ func (a *ringA) observe() rstate {
 	return s
 }
 
-type ringB struct{ hs []*stdring.Ring }
+type ringB struct {
+	hs    []*stdring.Ring
+	blind bool // a walk hit walkBound
+}
 
 func (a *ringB) idx(r *stdring.Ring) int {
 	if r == nil {
@@ -601,7 +628,9 @@ func doSeqB(r *stdring.Ring) (seq []int, ok bool) {
 	defer func() {
 		if x := recover(); x != nil {
 			if _, is := x.(guard); !is {
-				panic(x)
+				// Do ran into a broken link (nil next): a corrupted ring, reported as such
+				seq, ok = []int{-96}, false
+				return
 			}
 			seq, ok = []int{-99}, false
 		}
@@ -661,15 +690,24 @@ func (a *ringB) do(op Op) (r ret) {
 	return r
 }
 
-func (a *ringB) observe() rstate {
+// observe: Len, Do, Next, Prev of every handle except the zero Rings no operation has touched yet
+// (fresh): observing one would initialise it, and the lazy initialisation inside Prev / Move / Link /
+// Len / Do is itself part of what is compared.
+func (a *ringB) observe(fresh map[int]bool) rstate {
 	var s rstate
-	for _, x := range a.hs {
+	for i, x := range a.hs {
+		if fresh[i] {
+			continue
+		}
 		var o ringObs
+		// Do first as a guard for Len (same loop shape); the model calls Len first, which
+		// is indistinguishable: both only initialise a zero Ring.
 		seq, ok := doSeqB(x)
 		if ok {
 			o.Len = x.Len()
 		} else {
 			o.Len = -98
+			a.blind = a.blind || (len(seq) == 1 && seq[0] == -99)
 		}
 		o.Seq = seq
 		o.N = a.idx(x.Next())
@@ -696,6 +734,23 @@ func (a *ringB) sameRing(r, s int) (same, both bool) {
 		}
 	}
 	return false, true
+}
+
+// touch maintains the set of fresh zero Rings (handle indices): RZero creates one, any operation that
+// names a handle as an argument ends its freshness (the Coq side applies the same syntactic rule).
+func touch(fresh map[int]bool, op Op, r ret) {
+	switch op.K {
+	case "RZero":
+		if r.Kind == "H" && r.V >= 0 {
+			fresh[r.V] = true
+		}
+	case "RNew":
+	case "RLink":
+		delete(fresh, op.A)
+		delete(fresh, op.B)
+	default:
+		delete(fresh, op.A)
+	}
 }
 
 // ---- executing a case ----------------------------------------------------------------------
@@ -797,6 +852,9 @@ func execCase(c *core.Ctx, cs Case, emit bool) {
 				c.Count("panic_" + ra.Panic)
 			}
 			sa, sb := a.observe(), b.observe()
+			if sb.blind() {
+				c.Unobservable("list walk bound reached on container/list: traversals not compared")
+			}
 			if da, db := fmt.Sprint(sa), fmt.Sprint(sb); da != db {
 				fail("state differs from container/list", fmt.Sprintf("after op %d %v: lists %s, container/list %s", i, op, da, db))
 			}
@@ -825,6 +883,7 @@ func execCase(c *core.Ctx, cs Case, emit bool) {
 		return
 	}
 	a, b := &ringA{}, &ringB{}
+	fresh := map[int]bool{}
 	sameL, diffL := false, false
 	for i, op := range cs.Ops {
 		c.Count("op_" + op.K)
@@ -848,13 +907,22 @@ func execCase(c *core.Ctx, cs Case, emit bool) {
 		if ra.Kind == "P" {
 			c.Count("panic_" + ra.Panic)
 		}
-		sa, sb := a.observe(), b.observe()
+		touch(fresh, op, ra)
+		sa, sb := a.observe(fresh), b.observe(fresh)
 		if da, db := fmt.Sprint(sa), fmt.Sprint(sb); da != db {
 			fail("state differs from container/ring", fmt.Sprintf("after op %d %v: lists %s, container/ring %s", i, op, da, db))
 		}
 		ops[i] = coqOp("ring", op)
 		obs[i] = core.Pair(ra.coq(), core.Z(sa.hash()))
-		final = sa.coqFinal()
+	}
+	// at the end every handle is observed, also the zero Rings that were never used
+	sa, sb := a.observe(nil), b.observe(nil)
+	if da, db := fmt.Sprint(sa), fmt.Sprint(sb); da != db {
+		fail("final state differs from container/ring", fmt.Sprintf("lists %s, container/ring %s", da, db))
+	}
+	final = sa.coqFinal()
+	if b.blind {
+		c.Unobservable("ring walk bound reached on container/ring: Len/Do not compared")
 	}
 	if sameL || diffL {
 		c.Nontrivial()
